@@ -369,7 +369,9 @@ pub fn gen_history(r: &mut Rng, k: &Knobs) -> String {
                 s.ips = pool[0].ips.clone();
             }
         }
-        if i > 0 && r.chance(1, 6) {
+        if k.w_tiebreak > 0 {
+            s.inst = format!("{}-{}", s.inst, i); // distinct instance names (see generate_c07)
+        } else if i > 0 && r.chance(1, 6) {
             s.inst = flip_case(&pool[0].inst, 1 + r.below(2)); // same name in another letter case
             s.ty = pool[0].ty.clone();
             s.ty_arg = pool[0].ty_arg.clone();
@@ -507,9 +509,15 @@ pub fn generate_c07(r: &mut Rng, tier: &str, emit: &mut dyn FnMut(String)) {
     }
     // (b) mixed histories
     for _ in 0..count(tier, 120, 1500) {
+        // Tiebreaking compares the probe's records pairwise in the order `Probe::insert_record`
+        // gave them; among records of one type that order is whatever `binary_search_by`
+        // returns ("any one of the matches").  Histories with competing probe queries therefore
+        // have no re-registration with changed data (which puts two SRV or two TXT records
+        // into one probe), and the competing probes are for instance names only.
+        let tb = r.chance(1, 3);
         let k = Knobs {
-            tag: "C07", topo: topo_of(r), steps: r.range(2, 8), w_register: 4, w_rereg: 2, w_unregister: 1, w_query: 3,
-            w_tiebreak: 1, w_conflict: 1, w_jump: 1, shutdown: r.chance(1, 6), jitter: None,
+            tag: "C07", topo: topo_of(r), steps: r.range(2, 8), w_register: 4, w_rereg: if tb { 0 } else { 2 }, w_unregister: 1,
+            w_query: 3, w_tiebreak: if tb { 2 } else { 0 }, w_conflict: 1, w_jump: 1, shutdown: r.chance(1, 6), jitter: None,
         };
         emit(gen_history(r, &k));
     }
